@@ -56,22 +56,69 @@ def gen_cases(ctx):
                     m = "".join(word)
                 else:
                     cnt = cont
-                ops = [new_op(0, ind, pr), new_op(2, ind, other), new_op(3, ind, pr)] + hist + [("c", 0, 1)]
+                hist_ = hist
+                if mi % 2 == 0:
+                    # small-integer grid for every instance: windows of different instances then often share sums,
+                    # extrema and evicted values (what a hidden cache keyed on such quantities would confuse)
+                    def grid(n):
+                        if ind in NO_SCALAR:
+                            return [("b", 0) + b for b in bar_stream(r, n, "grid")]
+                        return [("n", 0, float(r.choice([1, 2, 3, 2]))) for _ in range(n)]
+                    cnt = grid(len(cnt))
+                    hist_ = grid(len(hist))
+                ops = [new_op(0, ind, pr), new_op(2, ind, other), new_op(3, ind, pr), new_op(4, ind, pr)] + hist_ + [("c", 0, 1)]
+                # slot 4: same parameters, a different history drawn from a small grid (so that windows of different
+                # instances often share sums / extrema); compared below with a solo run of the same stream
+                twin = [("b", 4) + b for b in bar_stream(r, len(m) + 2, "grid")] if ind in NO_SCALAR else \
+                    [("n", 4, float(r.choice([1, 2, 3, 2, 1, 3]))) for _ in range(len(m) + 2)]
+                ti = 0
                 ia = ib = 0
                 ni = 0
                 for ch in m:
                     if r.random() < 0.3:
                         ops.append(noise[ni % len(noise)])
                         ni += 1
+                    if r.random() < 0.6 and ti < len(twin):
+                        ops.append(twin[ti])
+                        ti += 1
                     if ch == "A":
                         ops.append(cnt[ia]); ia += 1
                     else:
                         o = cnt[ib]; ib += 1
                         ops.append((o[0], 1) + tuple(o[2:]))
-                for o in hist + cnt:
+                for o in hist_ + cnt:
                     ops.append((o[0], 3) + tuple(o[2:]))
                 cases.append(Case("%s_g%d_m%d" % (ind, gi, mi), ops, dump=(0, 1, 3),
                                   meta={"ind": ind, "params": pr[:3], "merge": m if len(m) < 40 else m[:40] + "...", "cont": len(cnt)}))
+                solo = [new_op(4, ind, pr)] + twin[:ti]
+                cases.append(Case("%s_g%d_m%d_solo" % (ind, gi, mi), solo, dump=(4,),
+                                  meta={"ind": ind, "params": pr[:3], "merge": "solo", "cont": ti, "solo_of": "%s_g%d_m%d" % (ind, gi, mi)}))
+    # family S: several instances with the SAME parameters, each fed its own small-grid stream, randomly interleaved;
+    # each is compared with a solo run of its stream (detects caches shared between instances)
+    for ind in ALL:
+        for p in ([1, 2, 3] if nper(ind) > 0 else [0]):
+            k = nper(ind)
+            pr = (p if k >= 1 else 0, p if k >= 2 else 0, p if k >= 3 else 0, 2.0 if ind in HAS_MULT else 0.0)
+            nsl = 3
+            n = 60 if not ctx.thorough else 400
+            streams = []
+            for sl in range(nsl):
+                if ind in NO_SCALAR:
+                    streams.append([("b", sl) + b for b in bar_stream(r, n, "grid")])
+                else:
+                    streams.append([("n", sl, float(r.choice([1, 2, 3, 2, 2]))) for _ in range(n)])
+            ops = [new_op(sl, ind, pr) for sl in range(nsl)]
+            pos = [0] * nsl
+            order = [sl for sl in range(nsl) for _ in range(n)]
+            r.shuffle(order)
+            for sl in order:
+                ops.append(streams[sl][pos[sl]])
+                pos[sl] += 1
+            cid = "S_%s_p%d" % (ind, p)
+            cases.append(Case(cid, ops, dump=tuple(range(nsl)), meta={"ind": ind, "params": pr[:3], "merge": "same-params x%d" % nsl, "cont": n, "fam": "S"}))
+            for sl in range(nsl):
+                cases.append(Case("%s_solo%d" % (cid, sl), [new_op(sl, ind, pr)] + streams[sl], dump=(sl,),
+                                  meta={"ind": ind, "params": pr[:3], "merge": "solo", "cont": n, "solo_of": cid, "solo_slot": sl}))
     return cases
 
 
@@ -92,7 +139,20 @@ def check_impl(ctx, cases):
                     line = src_nc[:m.start()].count("\n") + 1
                     hits.append("%s:%d:%s" % (os.path.relpath(os.path.join(root, fn), REPO), line, m.group(0)))
     ctx.stats["purity_scan_hits"] = hits
+    byid = {c.cid: c for c in cases}
     for c in cases:
+        if "solo_of" in c.meta:
+            full = byid[c.meta["solo_of"]]
+            sl = c.meta.get("solo_slot", 4)
+            x, y = outs_of(c, sl), outs_of(full, sl)
+            for k in range(len(x)):
+                if x[k][1] != y[k][1]:
+                    out.append(Violation("%s%s: an instance fed alone returns %s at step %d, but %s when other instances with the same "
+                                         "parameters are fed in between (hidden shared state)" % (c.meta["ind"], c.meta["params"], x[k][1], k + 1, y[k][1]), case=full))
+                    break
+            continue
+        if c.meta.get("fam") == "S":
+            continue
         a, b, d = outs_of(c, 0), outs_of(c, 1), outs_of(c, 3)
         na = len(a) - len(b)       # history length
         for k in range(len(b)):
@@ -105,7 +165,7 @@ def check_impl(ctx, cases):
                 out.append(Violation("%s%s: an instance with equal parameters and history returns a different output at step %d: %s vs %s"
                                      % (c.meta["ind"], c.meta["params"], k + 1, a[k][1], d[k][1]), case=c))
                 break
-        if c.images.get(0) != c.images.get(1) or c.images.get(0) != c.images.get(3):
+        if c.meta.get("fam") != "S" and (c.images.get(0) != c.images.get(1) or c.images.get(0) != c.images.get(3)):
             out.append(Violation("%s: final states of original / clone / equal-history instance differ" % c.meta["ind"], case=c))
         if len(out) > 10:
             break
